@@ -414,13 +414,16 @@ def compare(expect, obs, n):
             if got_t != expect["targets"]:
                 bad.append(("target-flags-differ", f"targets {got_t}, the rows labelled 1/True are "
                             f"{expect['targets']}"))
+            # dtype of the flag column and the index labels of the spectra frame are representation details, not part
+            # of the statement (rows, order and flags are): noted, never flagged
             if obs["target_dtype"] != "bool":
-                bad.append(("target-dtype-not-bool", f"target column of the spectra frame has dtype "
-                            f"{obs['target_dtype']}"))
+                NOTES.add("target column of the spectra frame is not of dtype bool")
         if obs["index"] != list(range(n)):
-            bad.append(("spectra-index-not-file-row-number", f"spectra_dataframe index {obs['index']}, expected "
-                        f"0..{n - 1}"))
+            NOTES.add("spectra_dataframe index is not 0..n-1")
     return bad
+
+
+NOTES = set()
 
 
 def complexity(spec):
@@ -530,6 +533,7 @@ def check_history(spec, acc):
 
 def worker(item):
     acc = Acc()
+    acc.notes = NOTES  # representation details observed (see compare)
     for spec in item:
         if "history" in spec:
             cls, outcome = check_history(spec, acc)
